@@ -3,6 +3,7 @@ import MemVerif.Gen.Guards
 import MemVerif.Model.Buckets
 import MemVerif.Drv.Stack
 import MemVerif.Drv.Pool
+import MemVerif.Model.Debug
 /-!
 Line-protocol driver: reads one operation per line on stdin, runs the executable model, prints the
 model's result in the harness' canonical format. `tools/` diff the two streams.
@@ -46,6 +47,18 @@ def arith (fn : String) (args : List String) : Option String :=
   | "stack_allocation_fits", [some f, some o, some s, some r] => some (b2s (stackAllocationFits f o s r))
   | _, _ => none
 
+/-- C17: `ll <allocator> <size> <fence> <off:val,...|->` -> the handler calls of `deallocate_node` -/
+def llLine (args : List String) : Option String :=
+  match args with
+  | [_, size, fence, pokes] =>
+    let ws : List (Nat × Nat) := if pokes = "-" then [] else
+      (pokes.splitOn ",").filterMap fun t => match t.splitOn ":" with
+        | [o, v] => some (nat! o, nat! v)
+        | _ => none
+    let r := llFreeReports (nat! size) (nat! fence) (poke (llNew (nat! size) (nat! fence)) ws)
+    some (" ".intercalate ("reports" :: r.map toString))
+  | _ => none
+
 structure DState where
   stack : StackSt := {}
   pool : PoolSt := {}
@@ -78,6 +91,10 @@ def step (ds : DState) (line : String) : DState × String :=
       else if subj = "static" then
         let (st, res, up, sts) := staticStep ds.stack rest
         fin st (res, up, sts)
+      else if subj = "ll" then
+        match llLine rest with
+        | some r => (ds, mkLine (secs.getD 0 "") "" r "" "-")
+        | none => (ds, s!"bad-op {line}")
       else if subj = "src" then
         let (st, res, up, sts) := srcStep ds.stack rest env
         fin st (res, up, sts)
